@@ -7,6 +7,7 @@
  *        6 RAW get_raw         7 F field_with_length (symbolic name, <= 2 bytes)
  *        8 TW parser_to_writer 9 FS field(strlen variant)  10 FE field_ensure_with_length
  *       14 GN get_name (raises STATE where no name is available)
+ *       15 IB init on a buffer that is rejected (size 1)      16 IN init again on the real buffer (restarts the reference cursor)
  *       11 NE next_ensure     12 RS binson_parser_reset   13 VF binson_parser_verify (both restart the reference cursor)
  *   -DMODE= 1 REF : valid documents (assume ref_verify == OK); an op that is not protocol-following
  *                   for this document per the reference cursor ends the script
@@ -236,7 +237,7 @@ void harness(void)
         else if (op == 5) legal = legal && rc_in_array(&c);
         else if (op == 6 || op == 8) legal = legal && c.onvalue;
         else if (op == 7 || op == 9 || op == 10) legal = legal && rc_in_object(&c);
-        else if (op == 12 || op == 13) legal = true;       /* abandoning a traversal is always allowed */
+        else if (op == 12 || op == 13 || op == 15 || op == 16) legal = true;       /* abandoning a traversal is always allowed */
         if (!legal) break;
 #elif MODE == 2
         /* ---- legality per the parser's own answers ---- */
@@ -435,6 +436,27 @@ void harness(void)
             (void) nmq;
             break;
         }
+        case 15: {
+            /* a rejected init in between (cut-off message): return value deliberately ignored */
+            bool rb = (ROOT == 1) ? binson_parser_init_object(&p, buf, NB > 0 ? 1 : 0) : binson_parser_init_array(&p, buf, NB > 0 ? 1 : 0);
+            PCHECK(12, !rb, "C12 a one-byte buffer is rejected by init");
+            op_r = false;
+            break;
+        }
+        case 16: {
+            bool ri = (ROOT == 1) ? binson_parser_init_object(&p, buf, NB) : binson_parser_init_array(&p, buf, NB);
+#if MODE == 1
+            rc_init(&c);
+            complete = true;
+            PCHECK(12, ri, "C12 init accepts a valid document whatever the parser object was used for before");
+#if PROPSET == 10 || PROPSET == 11
+            binson_writer_init(&w, wb, WCAP);
+#endif
+#endif
+            all_ok = all_ok && ri;
+            lib_sp = 0; lib_started = false; lib_done = false; lib_onvalue = false;
+            break;
+        }
         case 12: case 13: {
             bool r = (op == 12) ? binson_parser_reset(&p) : binson_parser_verify(&p);
 #if MODE == 1
@@ -478,6 +500,7 @@ void harness(void)
 #endif
 #if MODE == 1
         /* after every protocol-following call on a valid document */
+        if (op == 15) continue;            /* the rejected init leaves an error on purpose; the next op is the re-init */
         PCHECK(6, p.error_flags == BINSON_ERROR_NONE, "C06 no error is raised by a protocol-following call on a valid document");
         PCHECK(7, p.error_flags == BINSON_ERROR_NONE, "C07 no error is raised by lookups on a valid document");
         PCHECK(11, p.error_flags == BINSON_ERROR_NONE, "C11 no error is raised");
